@@ -1,4 +1,817 @@
-(* placeholder: model under construction *)
-From Coq Require Import List ZArith.
+(* Model of the editing API of TexSoup.data.TexNode / TexExpr:
+     delete remove replace replace_with insert append copy,
+     the setters of name / string / args (and TexArgs.insert of an unparsed group).
+
+   Addressing.  In Python a node is located by *object identity*
+   (`any(c is self.expr for c in holder._contents)`,
+    `next((i for i, c in enumerate(self._contents) if c is expr), None)`), and only
+   if the object is not found does the code fall back to the first element with equal
+   text.  The model addresses an item by its *position*: the path (through argument
+   indices and raw `_contents` indices) to the expression that holds it, and the index
+   in that expression's raw `_contents` list.  Every object of a tree in which no object
+   occurs twice (the properties stipulate fresh material) has exactly one position, so
+   "the list of holder h contains the very object" is "h's path is the holder path of the
+   position": with positions the identity look-up is exact.  The textual fall-backs are
+   modelled as well (they are what an ill-targeted call, e.g. parent.remove(node) for a
+   node that lives in an argument of parent, reaches).
+
+   A TexText that wraps a plain str (made by the `contents` setter) is represented as
+   EText with a token of position -1: `str()`, the whitespace filter of `contents` and
+   all comparisons used below cannot tell the two apart. *)
+From Coq Require Import List NArith ZArith Bool.
+From TexModel Require Import Base Tables Chars Tokenizer Tree Reader.
 Import ListNotations.
-Definition run_edit (inp : list Z) : list Z := [].
+Local Open Scope Z_scope.
+
+(* ------------------------------------------------------------------ outcomes *)
+Inductive eerr := ETypeError | EValueError | EAssertionError | EIndexError | EBadCase.
+Inductive outcome (A : Type) := Done (a : A) | Raise (e : eerr).
+Arguments Done {A} a.
+Arguments Raise {A} e.
+Definition obind {A B} (r : outcome A) (f : A -> outcome B) : outcome B :=
+  match r with Done a => f a | Raise e => Raise e end.
+
+(* ---------------------------------------------------------------- addressing *)
+Inductive step := SArg (i : nat) | SBody (i : nat).
+Definition path := list step.
+
+Definition step_eqb (a b : step) : bool :=
+  match a, b with
+  | SArg i, SArg j => Nat.eqb i j
+  | SBody i, SBody j => Nat.eqb i j
+  | _, _ => false
+  end.
+Fixpoint path_eqb (p q : path) : bool :=
+  match p, q with
+  | [], [] => true
+  | a :: p', b :: q' => step_eqb a b && path_eqb p' q'
+  | _, _ => false
+  end.
+
+(* TexCmd / TexEnv (anything that is not text) *)
+Definition is_node (e : expr) : bool :=
+  match e with EText _ | ERaw _ _ | EStr _ => false | _ => true end.
+
+Definition args_of (e : expr) : list expr :=
+  match e with ECmd _ a _ _ | ENamed _ a _ _ => a | _ => [] end.
+Definition body_of (e : expr) : list expr :=
+  match e with
+  | ECmd _ _ b _ | ENamed _ _ b _ | EMath _ b _ | EGroup _ b _ | ERoot b => b
+  | _ => []
+  end.
+Definition set_body (e : expr) (b : list expr) : expr :=
+  match e with
+  | ECmd n a _ p => ECmd n a b p
+  | ENamed n a _ p => ENamed n a b p
+  | EMath k _ p => EMath k b p
+  | EGroup k _ p => EGroup k b p
+  | ERoot _ => ERoot b
+  | _ => e
+  end.
+Definition set_args_of (e : expr) (a : list expr) : expr :=
+  match e with
+  | ECmd n _ b p => ECmd n a b p
+  | ENamed n _ b p => ENamed n a b p
+  | _ => e
+  end.
+
+Definition subst_nth {A} (i : nat) (x : A) (l : list A) : list A :=
+  firstn i l ++ x :: skipn (S i) l.
+(* l[i:i+k] = new *)
+Definition splice {A} (i k : nat) (new l : list A) : list A :=
+  firstn i l ++ new ++ skipn (i + k) l.
+
+Definition child (e : expr) (s : step) : option expr :=
+  match s with
+  | SArg i => nth_error (args_of e) i
+  | SBody i => nth_error (body_of e) i
+  end.
+Definition set_child (e : expr) (s : step) (c : expr) : expr :=
+  match s with
+  | SArg i => set_args_of e (subst_nth i c (args_of e))
+  | SBody i => set_body e (subst_nth i c (body_of e))
+  end.
+
+Fixpoint get (e : expr) (p : path) : option expr :=
+  match p with
+  | [] => Some e
+  | s :: p' => match child e s with Some c => get c p' | None => None end
+  end.
+Fixpoint put (e : expr) (p : path) (x : expr) : option expr :=
+  match p with
+  | [] => Some x
+  | s :: p' =>
+    match child e s with
+    | Some c => match put c p' x with Some c' => Some (set_child e s c') | None => None end
+    | None => None
+    end
+  end.
+Definition put_o (root : expr) (p : path) (x : expr) : outcome expr :=
+  match put root p x with Some r => Done r | None => Raise EBadCase end.
+
+(* replace the sub-list [i, i+k) of the raw list of the expression at p by new *)
+Definition splice_at (root : expr) (p : path) (i k : nat) (new : list expr) : option expr :=
+  match get root p with
+  | Some h => put root p (set_body h (splice i k new (body_of h)))
+  | None => None
+  end.
+
+(* ------------------------------------------- the surrounding text of a position *)
+(* what str() prints of e before its arguments, before its contents, after them *)
+Definition head_of (e : expr) : str :=
+  match e with
+  | ECmd n _ _ _ => backslash :: n
+  | ENamed n _ _ _ => env_begin n
+  | EMath k _ _ => math_begin k
+  | EGroup k _ _ => group_begin k
+  | ERoot _ => []
+  | _ => estr e
+  end.
+Definition open_of (e : expr) : str := head_of e ++ estr_list (args_of e).
+Definition close_of (e : expr) : str :=
+  match e with
+  | ENamed n _ _ _ => env_end n
+  | EMath k _ _ => math_end k
+  | EGroup k _ _ => group_end k
+  | _ => []
+  end.
+Definition step_pre (e : expr) (s : step) : str :=
+  match s with
+  | SArg i => head_of e ++ estr_list (firstn i (args_of e))
+  | SBody i => open_of e ++ estr_list (firstn i (body_of e))
+  end.
+Definition step_post (e : expr) (s : step) : str :=
+  match s with
+  | SArg i => estr_list (skipn (S i) (args_of e)) ++ estr_list (body_of e) ++ close_of e
+  | SBody i => estr_list (skipn (S i) (body_of e)) ++ close_of e
+  end.
+(* text before / after the expression at path p, inside root *)
+Fixpoint ctx_pre (e : expr) (p : path) : str :=
+  match p with
+  | [] => []
+  | s :: p' => step_pre e s ++ match child e s with Some c => ctx_pre c p' | None => [] end
+  end.
+Fixpoint ctx_post (e : expr) (p : path) : str :=
+  match p with
+  | [] => []
+  | s :: p' => match child e s with Some c => ctx_post c p' | None => [] end ++ step_post e s
+  end.
+(* text before / after the raw content list of the expression at path p *)
+Definition span_pre (root : expr) (p : path) : str :=
+  ctx_pre root p ++ match get root p with Some h => open_of h | None => [] end.
+Definition span_post (root : expr) (p : path) : str :=
+  match get root p with Some h => close_of h | None => [] end ++ ctx_post root p.
+
+(* ------------------------------------------------------------ the contents view *)
+(* isinstance(content, str) and content.isspace(), after unwrapping TexText *)
+Definition is_ws_str (s : str) : bool :=
+  match s with [] => false | _ => forallb is_ws s end.
+Definition is_ws_item (e : expr) : bool :=
+  match e with
+  | EText t => is_ws_str (ttext t)
+  | ERaw s _ => is_ws_str s
+  | EStr s => is_ws_str s
+  | _ => false
+  end.
+
+Fixpoint number_from {A} (k : nat) (l : list A) : list (nat * A) :=
+  match l with [] => [] | x :: l' => (k, x) :: number_from (S k) l' end.
+
+(* TexExpr.contents: for every argument its own `contents`, then the raw list, whitespace
+   dropped (preserve_whitespace is never set by the reader).  Every item comes with its
+   position relative to e: (path from e to the holder, index in the holder's raw list). *)
+Fixpoint cview (e : expr) : list ((path * nat) * expr) :=
+  let own (b : list expr) := map (fun ix => (([], fst ix), snd ix)) (number_from 0 b) in
+  let fix go (j : nat) (l : list expr) : list ((path * nat) * expr) :=
+      match l with
+      | [] => []
+      | a :: l' =>
+        map (fun it => ((SArg j :: fst (fst it), snd (fst it)), snd it)) (cview a) ++ go (S j) l'
+      end in
+  let keep := filter (fun it : (path * nat) * expr => negb (is_ws_item (snd it))) in
+  match e with
+  | ECmd _ a b _ => keep (go 0%nat a ++ own b)
+  | ENamed _ a b _ => keep (go 0%nat a ++ own b)
+  | EMath _ b _ => keep (own b)
+  | EGroup _ b _ => keep (own b)
+  | ERoot b => keep (own b)
+  | _ => []
+  end.
+
+(* node = soup.contents[k1].contents[k2]...  ->  (raw path of the node's expression, it) *)
+Fixpoint resolve (cur : expr) (acc : path) (vp : list nat) : option (path * expr) :=
+  match vp with
+  | [] => Some (acc, cur)
+  | k :: vp' =>
+    match nth_error (cview cur) k with
+    | Some ((p, i), x) => resolve x (acc ++ p ++ [SBody i]) vp'
+    | None => None
+    end
+  end.
+
+(* a node path is holder path ++ [SBody index] *)
+Definition split_node_path (np : path) : option (path * nat) :=
+  match rev np with
+  | SBody i :: r => Some (rev r, i)
+  | _ => None
+  end.
+
+(* the TexNode through which a node at holder path hp was reached: argument steps at the
+   end of hp lead into argument groups of that parent (groups are not nodes of the tree) *)
+Fixpoint drop_args (r : path) : path :=
+  match r with SArg _ :: r' => drop_args r' | _ => r end.
+Definition nav_parent (hp : path) : path := rev (drop_args (rev hp)).
+(* hp ends in at most one argument step (always so for parsed trees: arguments are groups,
+   or commands without arguments) *)
+Definition arg_depth_ok (hp : path) : bool :=
+  match rev hp with SArg _ :: SArg _ :: _ => false | _ => true end.
+
+(* ------------------------------------------------------------ Python list edits *)
+(* list.insert(i, x): i < 0 -> max(0, len + i); i > len -> len *)
+Definition norm_index (len : nat) (i : Z) : nat :=
+  if i <? 0 then Z.to_nat (Z.max 0 (Z.of_nat len + i)) else Nat.min (Z.to_nat i) len.
+Definition list_insert {A} (i : Z) (x : A) (l : list A) : list A :=
+  let k := norm_index (length l) i in firstn k l ++ x :: skipn k l.
+(* for j, x in enumerate(xs): l.insert(i + j, x)   -- each index normalised on its own *)
+Fixpoint insert_seq {A} (i : Z) (xs : list A) (l : list A) : list A :=
+  match xs with
+  | [] => l
+  | x :: xs' => insert_seq (i + 1) xs' (list_insert i x l)
+  end.
+
+Fixpoint index_of {A} (f : A -> bool) (l : list A) : option nat :=
+  match l with
+  | [] => None
+  | x :: l' => if f x then Some O else match index_of f l' with Some k => Some (S k) | None => None end
+  end.
+
+(* -------------------------------------------------------------------- TexExpr *)
+(* TexCmd._supports_contents: name == 'item'; every other class: True *)
+Definition supports (e : expr) : bool :=
+  match e with ECmd n _ _ _ => str_eqb n s_item | _ => true end.
+
+(* `c == x` for an element c of a raw list and a TexCmd/TexEnv x that is another object:
+   TexExpr.__eq__ compares str(); TexText.__eq__ answers False; a bare Token or str defers
+   to the reflected TexExpr.__eq__, i.e. text again *)
+Definition eq_expr_item (x c : expr) : bool :=
+  match c with EText _ => false | _ => str_eqb (estr c) (estr x) end.
+(* `c == node` for a TexNode: only another expression's __eq__ compares text *)
+Definition eq_node_item (x c : expr) : bool := is_node c && str_eqb (estr c) (estr x).
+
+(* TexExpr.remove(x) on holder h (whose path is hpath); x is the object at (thp, ti).
+   Returns the index and the new holder. *)
+Definition expr_remove (eqf : expr -> expr -> bool) (hpath : path) (h : expr)
+           (thp : path) (ti : nat) (x : expr) : outcome (nat * expr) :=
+  if negb (supports h) then Raise ETypeError else
+  let idx := if path_eqb hpath thp then Some ti              (* the object itself *)
+             else index_of (eqf x) (body_of h) in            (* self._contents.index(expr) *)
+  match idx with
+  | Some k => Done (k, set_body h (splice k 1 [] (body_of h)))
+  | None => Raise EValueError
+  end.
+
+(* TexExpr.insert(i, *new): TexNodes already unwrapped to their expressions, plain strings
+   stay plain *)
+Definition expr_insert (h : expr) (i : Z) (new : list expr) : outcome expr :=
+  if negb (supports h) then Raise ETypeError
+  else Done (set_body h (insert_seq i new (body_of h))).
+Definition expr_append (h : expr) (new : list expr) : outcome expr :=
+  if negb (supports h) then Raise ETypeError
+  else Done (set_body h (body_of h ++ new)).
+
+(* -------------------------------------------------------------------- TexNode *)
+Fixpoint number_args (pp : path) (j : nat) (l : list expr) : list (path * expr) :=
+  match l with [] => [] | a :: l' => (pp ++ [SArg j], a) :: number_args pp (S j) l' end.
+(* list(parent.args) + [parent.expr], each with its path *)
+Definition holders (pp : path) (P : expr) : list (path * expr) :=
+  number_args pp 0 (args_of P) ++ [(pp, P)].
+(* any(c is x for c in holder._contents) *)
+Definition holds_object (thp : path) (ph : path * expr) : bool := path_eqb (fst ph) thp.
+
+(* node.delete(), node = the object at (thp, ti), node.parent = the node at pp *)
+Definition delete_via (root : expr) (pp thp : path) (ti : nat) : outcome expr :=
+  match get root pp, get root (thp ++ [SBody ti]) with
+  | Some P, Some x =>
+    match find (holds_object thp) (holders pp P) with
+    | Some (hp, h) =>
+      obind (expr_remove eq_expr_item hp h thp ti x) (fun kh => put_o root hp (snd kh))
+    | None =>
+      (* for arg in self.parent.args: if self in arg.contents: arg.remove(self) *)
+      match find (fun ph => existsb (fun it => eq_node_item x (snd it)) (cview (snd ph)))
+                 (number_args pp 0 (args_of P)) with
+      | Some (hp, a) =>
+        obind (expr_remove eq_node_item hp a thp ti x) (fun kh => put_o root hp (snd kh))
+      | None =>
+        (* self.parent.remove(self) -> self.parent.expr.remove(self.expr) *)
+        obind (expr_remove eq_expr_item pp P thp ti x) (fun kh => put_o root pp (snd kh))
+      end
+    end
+  | _, _ => Raise EBadCase
+  end.
+Definition delete (root : expr) (thp : path) (ti : nat) : outcome expr :=
+  delete_via root (nav_parent thp) thp ti.
+
+(* parent.remove(node): self.expr.remove(node.expr) -- the parent's own list only *)
+Definition remove_via (root : expr) (pp thp : path) (ti : nat) : outcome expr :=
+  match get root pp, get root (thp ++ [SBody ti]) with
+  | Some P, Some x =>
+    obind (expr_remove eq_expr_item pp P thp ti x) (fun kh => put_o root pp (snd kh))
+  | _, _ => Raise EBadCase
+  end.
+Definition remove (root : expr) (thp : path) (ti : nat) : outcome expr :=
+  remove_via root (nav_parent thp) thp ti.
+
+(* parent.replace(child, *new): holder.insert(holder.remove(child.expr), *new) *)
+Definition replace_in (root : expr) (hp : path) (h : expr) (thp : path) (ti : nat) (x : expr)
+           (new : list expr) : outcome expr :=
+  obind (expr_remove eq_expr_item hp h thp ti x) (fun kh =>
+  obind (expr_insert (snd kh) (Z.of_nat (fst kh)) new) (fun h'' => put_o root hp h'')).
+Definition replace_via (root : expr) (pp thp : path) (ti : nat) (new : list expr) : outcome expr :=
+  match get root pp, get root (thp ++ [SBody ti]) with
+  | Some P, Some x =>
+    match find (holds_object thp) (holders pp P) with
+    | Some (hp, h) => replace_in root hp h thp ti x new
+    | None =>
+      (* for arg in self.expr.args: if child.expr in arg._contents *)
+      match find (fun ph => existsb (eq_expr_item x) (body_of (snd ph)))
+                 (number_args pp 0 (args_of P)) with
+      | Some (hp, a) => replace_in root hp a thp ti x new
+      | None => replace_in root pp P thp ti x new
+      end
+    end
+  | _, _ => Raise EBadCase
+  end.
+(* node.replace_with( *new) = node.parent.replace(node, *new) *)
+Definition replace_with (root : expr) (thp : path) (ti : nat) (new : list expr) : outcome expr :=
+  replace_via root (nav_parent thp) thp ti new.
+
+(* node.insert(i, *new) / node.append( *new); node at np.  The material is fresh, so the
+   `assert not node.parent` of TexNode.insert passes. *)
+Definition insert (root : expr) (np : path) (i : Z) (new : list expr) : outcome expr :=
+  match get root np with
+  | Some h => obind (expr_insert h i new) (fun h' => put_o root np h')
+  | None => Raise EBadCase
+  end.
+Definition append (root : expr) (np : path) (new : list expr) : outcome expr :=
+  match get root np with
+  | Some h => obind (expr_append h new) (fun h' => put_o root np h')
+  | None => Raise EBadCase
+  end.
+
+(* node.copy(): TexNode(self.expr) -- the same expression under a new wrapper *)
+Definition copy (e : expr) : expr := e.
+
+(* node.name = s: plain attribute assignment; \begin / \end of a TexNamedEnv are derived
+   from the current name.  On the delimiter classes and the root the attribute does not
+   reach str(); the model has no field for it (EBadCase = outside the model). *)
+Definition rename (e : expr) (s : str) : outcome expr :=
+  match e with
+  | ECmd _ a b p => Done (ECmd s a b p)
+  | ENamed _ a b p => Done (ENamed s a b p)
+  | _ => Raise EBadCase
+  end.
+Definition set_name (root : expr) (np : path) (s : str) : outcome expr :=
+  match get root np with
+  | Some h => obind (rename h s) (fun h' => put_o root np h')
+  | None => Raise EBadCase
+  end.
+
+(* TexText(TexText(s)): a text whose str() is s *)
+Definition text_of (s : str) : expr := EText (mkt s (-1) TText).
+
+(* node.string = s *)
+Definition restring (e : expr) (s : str) : outcome expr :=
+  match e with
+  | ECmd n a b p =>
+    (* assert len(self.expr.args) == 1; self.expr.args[0].string = s *)
+    match a with
+    | [a0] => Done (ECmd n [set_body a0 [text_of s]] b p)
+    | _ => Raise EAssertionError
+    end
+  | ENamed _ _ _ _ | EMath _ _ _ | EGroup _ _ _ | ERoot _ =>
+    (* contents = list(self.contents); assert len == 1 and it is text; self.contents = [s] *)
+    match cview e with
+    | [(_, x)] => if is_node x then Raise EAssertionError else Done (set_body e [text_of s])
+    | _ => Raise EAssertionError
+    end
+  | _ => Raise EBadCase
+  end.
+Definition set_string (root : expr) (np : path) (s : str) : outcome expr :=
+  match get root np with
+  | Some h => obind (restring h s) (fun h' => put_o root np h')
+  | None => Raise EBadCase
+  end.
+
+(* node.args = TexArgs made of the existing groups idxs (a prefix, slice, reversal,
+   permutation ...: each old group at most once, so no object is shared) *)
+Fixpoint select {A} (l : list A) (idxs : list nat) : option (list A) :=
+  match idxs with
+  | [] => Some []
+  | i :: r => match nth_error l i, select l r with
+              | Some x, Some xs => Some (x :: xs)
+              | _, _ => None
+              end
+  end.
+Fixpoint nodup_nat (l : list nat) : bool :=
+  match l with [] => true | x :: r => negb (existsb (Nat.eqb x) r) && nodup_nat r end.
+Definition reargs (e : expr) (idxs : list nat) : outcome expr :=
+  match e with
+  | ECmd _ a _ _ | ENamed _ a _ _ =>
+    if nodup_nat idxs then
+      match select a idxs with
+      | Some a' => Done (set_args_of e a')
+      | None => Raise EIndexError
+      end
+    else Raise EBadCase
+  | _ => Raise EBadCase
+  end.
+Definition set_args (root : expr) (np : path) (idxs : list nat) : outcome expr :=
+  match get root np with
+  | Some h => obind (reargs h idxs) (fun h' => put_o root np h')
+  | None => Raise EBadCase
+  end.
+
+(* node.args.insert(i, '{s}' / '[s]'): TexGroup.parse makes a group holding the plain
+   string; the index is normalised as list.insert does *)
+Definition args_insert (root : expr) (np : path) (i : Z) (k : groupkind) (s : str) : outcome expr :=
+  match get root np with
+  | Some h =>
+    match h with
+    | ECmd _ a _ _ | ENamed _ a _ _ =>
+      put_o root np (set_args_of h (list_insert i (EGroup k [EStr s] (-1)) a))
+    | _ => Raise EBadCase
+    end
+  | None => Raise EBadCase
+  end.
+
+(* ------------------------------------------------ histories of well-addressed edits *)
+Inductive op :=
+| ODelete (hp : path) (i : nat)
+| ORemove (hp : path) (i : nat)
+| OReplaceWith (hp : path) (i : nat) (new : list expr)
+| OInsert (np : path) (i : nat) (new : list expr)
+| OAppend (np : path) (new : list expr)
+| ORename (np : path) (s : str)
+| OSetStringCmd (np : path) (s : str)
+| OSetStringEnv (np : path) (s : str)
+| OSetArgs (np : path) (idxs : list nat).
+
+Definition apply_op (t : expr) (o : op) : outcome expr :=
+  match o with
+  | ODelete hp i => delete t hp i
+  | ORemove hp i => remove t hp i
+  | OReplaceWith hp i new => replace_with t hp i new
+  | OInsert np i new => insert t np (Z.of_nat i) new
+  | OAppend np new => append t np new
+  | ORename np s => set_name t np s
+  | OSetStringCmd np s => set_string t np s
+  | OSetStringEnv np s => set_string t np s
+  | OSetArgs np idxs => set_args t np idxs
+  end.
+
+Fixpoint run_ops (t : expr) (ops : list op) : outcome expr :=
+  match ops with
+  | [] => Done t
+  | o :: r => obind (apply_op t o) (fun t' => run_ops t' r)
+  end.
+
+(* the operation is aimed at something that exists and that the operation is for *)
+Definition holder_ok (t : expr) (hp : path) (i : nat) : bool :=
+  match get t hp with
+  | Some h => (Nat.ltb i (length (body_of h))) && supports h && arg_depth_ok hp
+  | None => false
+  end.
+Definition ends_in_arg (hp : path) : bool :=
+  match rev hp with SArg _ :: _ => true | _ => false end.
+Definition op_ok (t : expr) (o : op) : bool :=
+  match o with
+  | ODelete hp i => holder_ok t hp i
+  | ORemove hp i => holder_ok t hp i && negb (ends_in_arg hp)
+  | OReplaceWith hp i _ => holder_ok t hp i
+  | OInsert np i _ =>
+    match get t np with
+    | Some h => is_node h && supports h && Nat.leb i (length (body_of h))
+    | None => false
+    end
+  | OAppend np _ =>
+    match get t np with Some h => is_node h && supports h | None => false end
+  | ORename np _ =>
+    match get t np with Some (ECmd _ _ _ _) | Some (ENamed _ _ _ _) => true | _ => false end
+  | OSetStringCmd np _ =>
+    match get t np with Some (ECmd _ [a0] _ _) => is_node a0 | _ => false end
+  | OSetStringEnv np _ =>
+    match get t np with
+    | Some (ENamed _ _ _ _) | Some (EMath _ _ _) | Some (EGroup _ _ _) | Some (ERoot _) => true
+    | _ => false
+    end
+  | OSetArgs np _ =>
+    match get t np with Some (ECmd _ _ _ _) | Some (ENamed _ _ _ _) => true | _ => false end
+  end.
+Fixpoint ops_ok (t : expr) (ops : list op) : Prop :=
+  match ops with
+  | [] => True
+  | o :: r => op_ok t o = true /\ forall t', apply_op t o = Done t' -> ops_ok t' r
+  end.
+
+(* ----------------------------------------------------- reference document model *)
+(* A rose tree of strings.  A node has some strings in front, a list of argument
+   subtrees, a list of body subtrees, some strings behind; its text is the concatenation.
+   It knows nothing of expr / estr. *)
+Inductive ref :=
+| RLeaf (s : str)
+| RNode (hd : list str) (args body : list ref) (tl : list str).
+
+Fixpoint ref_str (r : ref) : str :=
+  match r with
+  | RLeaf s => s
+  | RNode hd a b tl => concat hd ++ concat (map ref_str a) ++ concat (map ref_str b) ++ concat tl
+  end.
+
+Definition r_args (r : ref) : list ref := match r with RNode _ a _ _ => a | _ => [] end.
+Definition r_body (r : ref) : list ref := match r with RNode _ _ b _ => b | _ => [] end.
+Definition r_set_body (r : ref) (b : list ref) : ref :=
+  match r with RNode hd a _ tl => RNode hd a b tl | _ => r end.
+Definition r_set_args (r : ref) (a : list ref) : ref :=
+  match r with RNode hd _ b tl => RNode hd a b tl | _ => r end.
+Definition r_child (r : ref) (s : step) : option ref :=
+  match s with SArg i => nth_error (r_args r) i | SBody i => nth_error (r_body r) i end.
+Definition r_set_child (r : ref) (s : step) (c : ref) : ref :=
+  match s with
+  | SArg i => r_set_args r (subst_nth i c (r_args r))
+  | SBody i => r_set_body r (subst_nth i c (r_body r))
+  end.
+Fixpoint r_get (r : ref) (p : path) : option ref :=
+  match p with
+  | [] => Some r
+  | s :: p' => match r_child r s with Some c => r_get c p' | None => None end
+  end.
+Fixpoint r_put (r : ref) (p : path) (x : ref) : option ref :=
+  match p with
+  | [] => Some x
+  | s :: p' =>
+    match r_child r s with
+    | Some c => match r_put c p' x with Some c' => Some (r_set_child r s c') | None => None end
+    | None => None
+    end
+  end.
+(* apply f to the subtree at p; nothing happens when p does not exist *)
+Definition r_update (r : ref) (p : path) (f : ref -> ref) : ref :=
+  match r_get r p with
+  | Some h => match r_put r p (f h) with Some r' => r' | None => r end
+  | None => r
+  end.
+
+(* the name is the second string in front and, if there are strings behind, the second
+   string behind *)
+Definition set_second (s : str) (l : list str) : list str :=
+  match l with a :: _ :: r => a :: s :: r | _ => l end.
+Definition r_rename (s : str) (r : ref) : ref :=
+  match r with RNode hd a b tl => RNode (set_second s hd) a b (set_second s tl) | _ => r end.
+Definition r_select (idxs : list nat) (r : ref) : ref :=
+  match select (r_args r) idxs with Some a => r_set_args r a | None => r end.
+
+Inductive rop :=
+| RSplice (p : path) (i k : nat) (new : list ref)
+| RAppend (p : path) (new : list ref)
+| RSetName (p : path) (s : str)
+| RSetBody (p : path) (new : list ref)
+| RSelectArgs (p : path) (idxs : list nat).
+
+Definition ref_step (r : ref) (o : rop) : ref :=
+  match o with
+  | RSplice p i k new => r_update r p (fun h => r_set_body h (splice i k new (r_body h)))
+  | RAppend p new => r_update r p (fun h => r_set_body h (r_body h ++ new))
+  | RSetName p s => r_update r p (r_rename s)
+  | RSetBody p new => r_update r p (fun h => r_set_body h new)
+  | RSelectArgs p idxs => r_update r p (r_select idxs)
+  end.
+
+Definition s_backslash : str := [backslash].
+
+Fixpoint abs (e : expr) : ref :=
+  match e with
+  | EText t => RLeaf (ttext t)
+  | ERaw s _ => RLeaf s
+  | EStr s => RLeaf s
+  | ECmd n a b _ => RNode [s_backslash; n] (map abs a) (map abs b) []
+  | ENamed n a b _ =>
+    RNode [s_begin_open; n; s_close] (map abs a) (map abs b) [s_end_open; n; s_close]
+  | EMath k b _ => RNode [math_begin k] [] (map abs b) [math_end k]
+  | EGroup k b _ => RNode [group_begin k] [] (map abs b) [group_end k]
+  | ERoot b => RNode [] [] (map abs b) []
+  end.
+
+Definition op_abs (o : op) : rop :=
+  match o with
+  | ODelete hp i => RSplice hp i 1 []
+  | ORemove hp i => RSplice hp i 1 []
+  | OReplaceWith hp i new => RSplice hp i 1 (map abs new)
+  | OInsert np i new => RSplice np i 0 (map abs new)
+  | OAppend np new => RAppend np (map abs new)
+  | ORename np s => RSetName np s
+  | OSetStringCmd np s => RSetBody (np ++ [SArg 0%nat]) [RLeaf s]
+  | OSetStringEnv np s => RSetBody np [RLeaf s]
+  | OSetArgs np idxs => RSelectArgs np idxs
+  end.
+
+(* ------------------------------------------------------------------ the driver *)
+(* Input:   source code points, -1, donor code points, -1, operations.
+   list  := n x1 .. xn
+   mats  := m item1 .. itemm       item := 0 list(code points)      plain string
+                                         | 1 list(view path)        copy of a donor node
+   op    := 1 vp                   node.delete()
+          | 2 vp                   node.parent.remove(node)
+          | 3 vp mats              node.replace_with( *mats)
+          | 4 k vp mats            anc.replace(node, *mats), anc = the node at vp[:k]
+          | 5 vp i mats            node.insert(i, *mats)            (i any integer)
+          | 6 vp mats              node.append( *mats)
+          | 7 vp list(name)        node.name = name
+          | 8 vp list(s)           node.string = s
+          | 9 vp list(idxs)        node.args = TexArgs([node.args[i] for i in idxs])
+          | 10 vp i kind list(s)   node.args.insert(i, '{s}' or '[s]')   kind 0 brace 1 bracket
+   vp = list of indices through the `contents` view, from the root.
+   Output: per operation  code, n, the n code points of str(root) after it
+           code: 0 ok, 1 TypeError, 2 ValueError, 3 AssertionError, 4 IndexError,
+                 9 outside the model;  [-1] parse failure;  a trailing -2: undecodable. *)
+Definition zs := list Z.
+
+Fixpoint take (n : nat) (l : zs) : option (zs * zs) :=
+  match n with
+  | O => Some ([], l)
+  | S n' =>
+    match l with
+    | [] => None
+    | x :: l' => match take n' l' with Some (a, r) => Some (x :: a, r) | None => None end
+    end
+  end.
+Definition dec_list (l : zs) : option (zs * zs) :=
+  match l with
+  | n :: l' => if n <? 0 then None else take (Z.to_nat n) l'
+  | [] => None
+  end.
+Definition to_str (l : zs) : str := map Z.to_N l.
+Definition to_nats (l : zs) : list nat := map Z.to_nat l.
+Fixpoint split_neg1 (l : zs) : zs * zs :=
+  match l with
+  | [] => ([], [])
+  | x :: l' => if x =? -1 then ([], l') else let '(a, r) := split_neg1 l' in (x :: a, r)
+  end.
+
+Fixpoint dec_mats (donor : expr) (n : nat) (l : zs) : option (list expr * zs) :=
+  match n with
+  | O => Some ([], l)
+  | S n' =>
+    match l with
+    | tag :: l1 =>
+      match dec_list l1 with
+      | Some (body, l2) =>
+        let item := if tag =? 0 then Some (EStr (to_str body))
+                    else match resolve donor [] (to_nats body) with
+                         | Some (_, x) => if is_node x then Some (copy x) else None
+                         | None => None
+                         end in
+        match item, dec_mats donor n' l2 with
+        | Some x, Some (xs, r) => Some (x :: xs, r)
+        | _, _ => None
+        end
+      | None => None
+      end
+    | [] => None
+    end
+  end.
+Definition dec_matlist (donor : expr) (l : zs) : option (list expr * zs) :=
+  match l with
+  | n :: l' => if n <? 0 then None else dec_mats donor (Z.to_nat n) l'
+  | [] => None
+  end.
+
+(* the node at view path vp: (parent node path, holder path, index, the expression) *)
+Definition locate (root : expr) (vp : list nat) : option (path * (path * nat) * expr) :=
+  match resolve root [] vp, resolve root [] (removelast vp) with
+  | Some (np, x), Some (pp, _) =>
+    match split_node_path np with
+    | Some (hp, i) => Some (pp, (hp, i), x)
+    | None => None
+    end
+  | _, _ => None
+  end.
+
+Definition exec_op (donor root : expr) (l : zs) : option (outcome expr * zs) :=
+  match l with
+  | opc :: l0 =>
+    if (opc =? 4) then
+      match l0 with
+      | k :: l0' =>
+        match dec_list l0' with
+        | Some (vpz, l1) =>
+          match dec_matlist donor l1 with
+          | Some (new, rest) =>
+            let vp := to_nats vpz in
+            Some (match locate root vp, resolve root [] (firstn (Z.to_nat k) vp) with
+                  | Some (_, (hp, i), x), Some (ap, _) =>
+                    if is_node x then replace_via root ap hp i new else Raise EBadCase
+                  | _, _ => Raise EBadCase
+                  end, rest)
+          | None => None
+          end
+        | None => None
+        end
+      | [] => None
+      end
+    else
+    match dec_list l0 with
+    | Some (vpz, l1) =>
+      let vp := to_nats vpz in
+      let on_target (f : path -> nat -> outcome expr) : outcome expr :=
+          match locate root vp with
+          | Some (pp, (hp, i), x) =>
+            if is_node x && path_eqb (nav_parent hp) pp then f hp i else Raise EBadCase
+          | None => Raise EBadCase
+          end in
+      let on_node (f : path -> outcome expr) : outcome expr :=
+          match resolve root [] vp with
+          | Some (np, x) => if is_node x then f np else Raise EBadCase
+          | None => Raise EBadCase
+          end in
+      if opc =? 1 then Some (on_target (fun hp i => delete root hp i), l1)
+      else if opc =? 2 then Some (on_target (fun hp i => remove root hp i), l1)
+      else if opc =? 3 then
+        match dec_matlist donor l1 with
+        | Some (new, rest) => Some (on_target (fun hp i => replace_with root hp i new), rest)
+        | None => None
+        end
+      else if opc =? 5 then
+        match l1 with
+        | i :: l2 =>
+          match dec_matlist donor l2 with
+          | Some (new, rest) => Some (on_node (fun np => insert root np i new), rest)
+          | None => None
+          end
+        | [] => None
+        end
+      else if opc =? 6 then
+        match dec_matlist donor l1 with
+        | Some (new, rest) => Some (on_node (fun np => append root np new), rest)
+        | None => None
+        end
+      else if opc =? 7 then
+        match dec_list l1 with
+        | Some (s, rest) => Some (on_node (fun np => set_name root np (to_str s)), rest)
+        | None => None
+        end
+      else if opc =? 8 then
+        match dec_list l1 with
+        | Some (s, rest) => Some (on_node (fun np => set_string root np (to_str s)), rest)
+        | None => None
+        end
+      else if opc =? 9 then
+        match dec_list l1 with
+        | Some (ix, rest) => Some (on_node (fun np => set_args root np (to_nats ix)), rest)
+        | None => None
+        end
+      else if opc =? 10 then
+        match l1 with
+        | i :: kd :: l2 =>
+          match dec_list l2 with
+          | Some (s, rest) =>
+            Some (on_node (fun np => args_insert root np i
+                                       (if kd =? 0 then GBrace else GBracket) (to_str s)), rest)
+          | None => None
+          end
+        | _ => None
+        end
+      else None
+    | None => None
+    end
+  | [] => None
+  end.
+
+Definition code_of (e : eerr) : Z :=
+  match e with
+  | ETypeError => 1 | EValueError => 2 | EAssertionError => 3 | EIndexError => 4 | EBadCase => 9
+  end.
+Definition emit (code : Z) (root : expr) : zs :=
+  let s := estr root in code :: Z.of_nat (length s) :: map Z.of_N s.
+
+Fixpoint run_loop (fuel : nat) (donor root : expr) (l : zs) : zs :=
+  match fuel with
+  | O => []
+  | S f =>
+    match l with
+    | [] => []
+    | _ :: _ =>
+      match exec_op donor root l with
+      | None => [-2]
+      | Some (Done root', rest) => emit 0 root' ++ run_loop f donor root' rest
+      | Some (Raise e, rest) => emit (code_of e) root ++ run_loop f donor root rest
+      end
+    end
+  end.
+
+Definition run_edit (inp : zs) : zs :=
+  let '(src, l1) := split_neg1 inp in
+  let '(dsrc, opsz) := split_neg1 l1 in
+  match parse (to_str src) true [], parse (to_str dsrc) true [] with
+  | Ok root, Ok donor => run_loop (length opsz) donor root opsz
+  | _, _ => [-1]
+  end.
